@@ -4,6 +4,7 @@ CONSTANTS
   ScenariosOf <- MCScenariosOf
   MaxRead = 2
   KF_FastInvertSkipsStopLine = FALSE
+  KF_ReaderByteCountIgnoresPartial = FALSE
   MaxLines = 3
   Bodies <- BodiesCand
   CtxMax = 2
